@@ -149,6 +149,7 @@ func (db *DB) collectGarbage() (collectedCount uint64, done bool, err error) {
 
 	currentCollectedCount := uint64(0)
 	releasedCount := uint64(0)
+	dirtySkipped := false
 	recycledItems := make([]shed.Item, 0)
 
 	// without batchMu lock, call chunkinfo to remove chunks
@@ -210,6 +211,7 @@ func (db *DB) collectGarbage() (collectedCount uint64, done bool, err error) {
 		})
 		if err != nil {
 			if errors.Is(err, dirtyGarbageNoHandle) {
+				dirtySkipped = true
 				continue
 			}
 			if errors.Is(err, storage.ErrNotFound) {
@@ -258,13 +260,6 @@ func (db *DB) collectGarbage() (collectedCount uint64, done bool, err error) {
 		releasedCount += item.GCounter
 	}
 
-	// if gcIndex missing, we should set gcSize to zero.
-	if len(recycledItems) == 0 {
-		// force gc clean
-		currentCollectedCount = gcSize
-		releasedCount = gcSize
-	}
-
 	currentSize := uint64(0)
 	if releasedCount <= gcSize {
 		currentSize = gcSize - releasedCount
@@ -272,6 +267,21 @@ func (db *DB) collectGarbage() (collectedCount uint64, done bool, err error) {
 
 	if currentSize > target {
 		done = false
+	}
+
+	// nothing could be recycled in this run: resynchronise gcSize with
+	// what the gc index actually records instead of guessing, and only ask
+	// for another run if entries were skipped because they were in use.
+	if len(recycledItems) == 0 {
+		currentSize = 0
+		err = db.gcIndex.Iterate(func(item shed.Item) (stop bool, err error) {
+			currentSize += item.GCounter
+			return false, nil
+		}, nil)
+		if err != nil {
+			return 0, false, err
+		}
+		done = !dirtySkipped || currentSize <= target
 	}
 
 	db.metrics.GCCommittedCounter.Add(float64(currentCollectedCount))
